@@ -80,6 +80,7 @@ pub struct Violation {
 pub struct Known {
     /// property -> sig -> description
     pub map: BTreeMap<String, BTreeMap<String, String>>,
+    pub survey: Option<String>,
 }
 
 impl Known {
@@ -113,9 +114,14 @@ impl Known {
                 }
             }
         }
-        Self { map }
+        let survey = std::env::var("VERIF_SURVEY").ok().filter(|v| v == "1").map(|_| "(survey mode, not a verdict)".to_string());
+        Self { map, survey }
     }
     pub fn get(&self, prop: &str, sig: &str) -> Option<&String> {
+        if let Some(s) = &self.survey {
+            // development aid (VERIF_SURVEY=1): count every failure class instead of stopping
+            return Some(s);
+        }
         self.map.get(prop).and_then(|m| m.get(sig))
     }
 }
